@@ -446,16 +446,20 @@ impl Transaction {
 				if entry.is_hard_delete() {
 					return Ok(None);
 				}
-
-				// Write set entry is visible if its timestamp <= query timestamp
-				if entry.timestamp <= timestamp {
-					if entry.is_tombstone() {
-						return Ok(None);
-					}
-					return Ok(entry.value.clone());
-				}
-				// entry.timestamp > timestamp: write is "from the future", check storage
 			}
+
+			// A key can have several pending versions (explicit timestamps), and
+			// commit writes all of them: the answer is the newest pending version
+			// whose timestamp <= query timestamp (the last issued among equals).
+			let visible =
+				entries.iter().filter(|e| e.timestamp <= timestamp).max_by_key(|e| e.timestamp);
+			if let Some(entry) = visible {
+				if entry.is_tombstone() {
+					return Ok(None);
+				}
+				return Ok(entry.value.clone());
+			}
+			// every pending version is "from the future": check storage
 		}
 
 		// Query the versioned index through the snapshot
